@@ -37,7 +37,7 @@ func productLeaves(o genOpts, withSafeKinds bool) []*D {
 			out = append(out, &D{K: k, F: 0}, &D{K: k, F: -1234.5678}, &D{K: k, S: "NaN"}, &D{K: k, S: "-Inf"}, &D{K: k, S: "-0"})
 		case "complex64", "complex128":
 			out = append(out, &D{K: k, F: 0, N: 0}, &D{K: k, F: 1.5, N: -2}, &D{K: k, S: "NaN", N: 3}, &D{K: k, S: "+Inf", N: 0}, &D{K: k, F: 1, N: 9001}, &D{K: k, F: -2.5, N: 9003}, &D{K: k, S: "-0", N: 9004})
-		case "string", "NStr", "bytes", "NBytes", "barr", "barr8", "nbarr", "nbslice", "SNArr":
+		case "string", "NStr", "bytes", "NBytes", "barr", "barr8", "nbarr", "nbslice", "SNArr", "TagStruct", "TagNilPtr", "TagNilChan", "TagMap":
 			out = append(out, dS(k, ""), dS(k, rich))
 			if k == "barr8" {
 				out = append(out, dS(k, "hé☺x"))
